@@ -1,4 +1,5 @@
 import MudProof.Properties.C02
+import MudProof.StepThm
 open Mud.C02
 #print axioms W_hermitian
 #print axioms propagatorU_eq
@@ -27,3 +28,5 @@ open Mud.C02
 #print axioms trace_sq_two
 #print axioms rk4_purity_witness
 #print axioms rk4_not_pure
+#print axioms Mud.StepThm.shStep_common
+#print axioms Mud.StepThm.shRun_rho_valid
